@@ -14,7 +14,7 @@ pub mod l2;
 pub mod inst;
 
 #[cfg(kani)]
-mod proofs {
+pub mod proofs {
     use super::l2::*;
     use paseto_core::key::HasKey;
     use paseto_core::paserk::PkeSealingVersion;
